@@ -43,6 +43,10 @@ import (
 //	reduced_size     a template holding a user-defined element of a fixed-width type declared with a shorter
 //	                 length (reduced-size encoding, RFC 7011 6.2: Ill names it, Delta=1 puts it last), then a
 //	                 record with a small value: an error, or the value in exactly the declared number of bytes
+//	no_encoder       a template holding a registry element whose data type the library has no encoder for
+//	                 (Ill: micro = flowStartMicroseconds, nano = flowStartNanoseconds in an unsigned64 value
+//	                 object, basiclist = basicList in an octet-array value object - the only way an application
+//	                 can give such an element a value), then a record: an error, or the value's bytes
 //	illtyped         data record for the ill-typed template holding a value that cannot be encoded: Ill names it
 type Step struct {
 	Kind    string        `json:"kind"`
@@ -104,10 +108,13 @@ func wideTpl() []ref.Field {
 	return []ref.Field{glue.UserField(ref.TU32), glue.UserField(ref.TString), glue.UserField(ref.TString), glue.UserField(ref.TString)}
 }
 
+var noEncoderKinds = []string{"micro", "nano", "basiclist"}
+
 var reducedKinds = []string{"u64_in_4", "u32_in_2", "i32_in_2", "u16_in_1", "f64_in_4"}
 
 const (
 	idReduced = 900 // .. 909
+	idNoEnc   = 920 // .. 925
 	idWide    = 999
 	idSize    = 1000
 	idIll     = 1001
@@ -476,6 +483,40 @@ func runCase(c Case, st *Stats) *ev.Failure {
 			}
 			set, err := exph.DataSet(id, fields, [][]ref.Value{vals}, s.Path)
 			fl = send(i, fmt.Sprintf("record holding a %s value in an element declared with length %d", rt, rl), set, err, ref.DataMessage(h, ref.Template{ID: id, Fields: wire}, [][]ref.Value{wvals}), true)
+			if fl == nil {
+				fl = marker(i)
+			}
+		case "no_encoder":
+			k := 0
+			for j, n := range noEncoderKinds {
+				if n == s.Ill {
+					k = j
+				}
+			}
+			ne := []ref.Field{{ID: 154, Len: 8, Type: ref.TU64, Name: "flowStartMicroseconds"}, {ID: 156, Len: 8, Type: ref.TU64, Name: "flowStartNanoseconds"}, {ID: 291, Len: ref.VarLen, Type: ref.TOctets, Name: "basicList"}}[k]
+			nv := []ref.Value{{U: 0x1122334455667788}, {U: 0x1122334455667788}, {B: []byte{0xde, 0xad, 0xbe}}}[k]
+			if ie := glue.IE(ne); ie.Name != ne.Name || ie.Len != ne.Len {
+				break // this registry does not have the element as described: nothing to check
+			}
+			u16 := glue.UserField(ref.TU16)
+			fields, vals := []ref.Field{ne, u16}, []ref.Value{nv, {U: 0xabcd}}
+			if s.Delta == 1 {
+				fields, vals = []ref.Field{u16, ne}, []ref.Value{{U: 0xabcd}, nv}
+			}
+			id := uint16(idNoEnc + 2*k + s.Delta)
+			if !onWire[id] {
+				set, err := exph.TemplateSet(id, fields, s.Path)
+				if err != nil {
+					break // the element is refused when the template is built: fine
+				}
+				if _, err := ep.SendSet(set); err != nil {
+					break // or when it is sent
+				}
+				expect = append(expect, ref.TemplateMessage(h, ref.Template{ID: id, Fields: fields}))
+				onWire[id] = true
+			}
+			set, err := exph.DataSet(id, fields, [][]ref.Value{vals}, s.Path)
+			fl = send(i, fmt.Sprintf("record holding a value for %s, an element of a data type the library has no encoder for", ne.Name), set, err, ref.DataMessage(h, ref.Template{ID: id, Fields: fields}, [][]ref.Value{vals}), true)
 			if fl == nil {
 				fl = marker(i)
 			}
@@ -1019,6 +1060,17 @@ func TestC09(t *testing.T) {
 				if f := runRecorded("enum_size", c); f != nil {
 					rec.Violation("enum_size", c, f.Msg)
 					t.Fatalf("%s", f.Msg)
+				}
+			}
+		}
+		for _, nk := range noEncoderKinds {
+			for path := 0; path < 4; path++ {
+				for last := 0; last < 2; last++ {
+					c := Case{Proto: proto, Steps: []Step{{Kind: "no_encoder", Ill: nk, Path: path, Delta: last}}}
+					if f := runRecorded("enum_illtyped", c); f != nil {
+						rec.Violation("enum_illtyped", c, f.Msg)
+						t.Fatalf("%s", f.Msg)
+					}
 				}
 			}
 		}
